@@ -49,8 +49,12 @@ typedef uint8_t seq_elem_t;
 #else
 typedef Janet seq_elem_t;
 #endif
+int g_re_called;      /* set by the realloc model; units that claim "never reallocates" name it in assigns/ensures */
 void *realloc(void *p, size_t n) {
   size_t k = n / sizeof(seq_elem_t);
+#ifdef SEQ_TRACK_REALLOC
+  g_re_called = 1;
+#endif
   __CPROVER_assert(k * sizeof(seq_elem_t) == n, "realloc model: size is a multiple of the element size");
   if (nd_int()) return SEQ_NULL;
   seq_elem_t *q = malloc(k * sizeof(seq_elem_t));
@@ -90,8 +94,9 @@ static JanetBuffer *mk_buffer(void) {
  * memcpy/memmove/memset of symbolic size: the call site must show both ranges valid for n bytes (memcpy: and
  * disjoint) - these are counted obligations ("memcpy model: ..."). Effect: the destination range becomes arbitrary
  * except the element at ghost offset g_mm (unconstrained => any offset), which receives the value the source had
- * there BEFORE the call (memset: the fill byte). n == 0 is a no-op with no requirement on the pointers other than
- * what ISO C says the callers here rely on (safe_memcpy / guards skip the call). */
+ * there BEFORE the call (memset: the fill byte). n == 0 is a no-op with no requirement on the pointers (ISO C formally
+ * wants valid pointers even then; array/remove on an array without a block calls memmove(NULL, NULL, 0), harmless
+ * on every libc and therefore not counted). */
 size_t g_mm;
 static void seq_copy_model(void *d, const void *s, size_t n) {
   size_t k = n / sizeof(seq_elem_t);
@@ -105,14 +110,14 @@ static void seq_copy_model(void *d, const void *s, size_t n) {
   }
 }
 void *memmove(void *d, const void *s, size_t n) {
-  __CPROVER_assert(__CPROVER_r_ok(s, n), "memmove model: source range readable");
-  __CPROVER_assert(__CPROVER_w_ok(d, n), "memmove model: destination range writable");
+  __CPROVER_assert(n == 0 || __CPROVER_r_ok(s, n), "memmove model: source range readable");
+  __CPROVER_assert(n == 0 || __CPROVER_w_ok(d, n), "memmove model: destination range writable");
   if (n > 0) seq_copy_model(d, s, n);
   return d;
 }
 void *memcpy(void *d, const void *s, size_t n) {
-  __CPROVER_assert(__CPROVER_r_ok(s, n), "memcpy model: source range readable");
-  __CPROVER_assert(__CPROVER_w_ok(d, n), "memcpy model: destination range writable");
+  __CPROVER_assert(n == 0 || __CPROVER_r_ok(s, n), "memcpy model: source range readable");
+  __CPROVER_assert(n == 0 || __CPROVER_w_ok(d, n), "memcpy model: destination range writable");
   __CPROVER_assert(n == 0 || !__CPROVER_same_object(d, s) ||
                    __CPROVER_POINTER_OFFSET(d) + n <= __CPROVER_POINTER_OFFSET(s) ||
                    __CPROVER_POINTER_OFFSET(s) + n <= __CPROVER_POINTER_OFFSET(d), "memcpy model: ranges do not overlap");
@@ -120,7 +125,7 @@ void *memcpy(void *d, const void *s, size_t n) {
   return d;
 }
 void *memset(void *d, int c, size_t n) {
-  __CPROVER_assert(__CPROVER_w_ok(d, n), "memset model: destination range writable");
+  __CPROVER_assert(n == 0 || __CPROVER_w_ok(d, n), "memset model: destination range writable");
   if (n > 0) {
     __CPROVER_havoc_slice(d, n);
     if (g_mm < n) ((uint8_t *)d)[g_mm] = (uint8_t)c;
